@@ -109,6 +109,10 @@ pub struct World {
     pub fault_fired: u32,
     /// Set once a panic was caught: leaks and skipped callbacks are permitted from then on.
     pub tainted: bool,
+    /// objects that were unreachable when a panic was caught: they may have been involved in the unwound call (their count may be too high)
+    pub rc_tainted: [bool; MAXN],
+    /// the finalize fault fires after the finalizer's action instead of before it
+    pub fault_late: bool,
     // ---- behaviours
     pub fin_act: [u8; MAXN],
     pub drop_act: [u8; MAXN],
@@ -175,6 +179,8 @@ pub static mut W: World = World {
     count: [0; 6],
     fault_fired: 0,
     tainted: false,
+    rc_tainted: [false; MAXN],
+    fault_late: false,
     fin_act: [0; MAXN],
     drop_act: [0; MAXN],
     bad_upgrade: 0,
@@ -294,7 +300,19 @@ impl Finalize for Node {
                 }
             }
         }
-        maybe_fault(K_FINALIZE);
+        if !w.fault_late {
+            maybe_fault(K_FINALIZE);
+        }
+        finalize_action(self, id);
+        if w.fault_late {
+            maybe_fault(K_FINALIZE);
+        }
+    }
+}
+
+fn finalize_action(this: &Node, id: usize) {
+    let w = w();
+    {
         match w.fin_act[id] {
             F_CLEAR0 => {
                 clear_slot(id, 0);
@@ -307,7 +325,7 @@ impl Finalize for Node {
             F_STASH_NEIGH => {
                 let t = w.edge[id][0];
                 if t != NONE {
-                    if let Some(c) = &self.slots()[0] {
+                    if let Some(c) = &this.slots()[0] {
                         let c = c.clone();
                         stash_put(t as usize, c);
                     }
@@ -365,10 +383,17 @@ impl Finalize for Node {
             }
             #[cfg(feature = "weak-ptrs")]
             F_UPGRADE_STASH => {
-                if let Some(wk) = self.wslot() {
+                if let Some(wk) = this.wslot() {
                     let wt = w.wedge[id];
+                    // this finalizer may be nested in the collector's drop phase (plain drop of an object the collector does not
+                    // know): members of the garbage set being destroyed are condemned and must not upgrade
+                    let (collecting, _, dropping) = rust_cc::verif::phase_flags();
+                    let condemned = collecting && dropping && wt != NONE && !reach_set()[wt as usize];
                     match wk.upgrade() {
                         Some(c) => {
+                            if condemned {
+                                w.bad_upgrade += 1;
+                            }
                             let t = c.id;
                             // C08: never a dropped value, always the original allocation
                             if w.drops[t] != 0 || c.canary != CANARY + t as u32 || t as u8 != wt || (&**(&c)) as *const Node as usize != w.addr[t] {
@@ -378,7 +403,7 @@ impl Finalize for Node {
                         }
                         None => {
                             // finalizers run before any destruction of the set begins: the target must be gone already
-                            if wt != NONE && w.drops[wt as usize] == 0 && !w.unwrapped[wt as usize] && model_count(wt as usize) > 0 {
+                            if !condemned && wt != NONE && w.drops[wt as usize] == 0 && !w.unwrapped[wt as usize] && model_count(wt as usize) > 0 {
                                 w.bad_upgrade += 1;
                             }
                         }
@@ -387,13 +412,13 @@ impl Finalize for Node {
             }
             #[cfg(feature = "weak-ptrs")]
             F_UPGRADE_SLOT1 => {
-                if let Some(wk) = self.wslot() {
+                if let Some(wk) = this.wslot() {
                     if let Some(c) = wk.upgrade() {
                         let t = c.id;
                         if w.drops[t] != 0 || c.canary != CANARY + t as u32 {
                             w.bad_upgrade += 1;
                         }
-                        let old = core::mem::replace(&mut self.slots()[1], Some(c));
+                        let old = core::mem::replace(&mut this.slots()[1], Some(c));
                         w.edge[id][1] = t as u8;
                         note_unreachable();
                         drop(old);
@@ -1000,12 +1025,23 @@ pub fn oracle_safety(base: u32) {
 /// C04: reference counting alone reclaims at once (valid at top level whenever no panic was caught).
 pub fn oracle_rc(base: u32) {
     let w = w();
-    if w.tainted {
-        return;
-    }
     for i in 0..w.n {
-        if w.created[i] && model_count(i) == 0 {
+        // after a caught panic only the objects involved in the unwound call may have a count that is too high (a leak)
+        if w.created[i] && !w.rc_tainted[i] && model_count(i) == 0 {
             check(w.drops[i] == 1, base + 11);
+        }
+    }
+}
+
+/// A panic was caught: everything unreachable right now may have been involved in the unwound call.
+pub fn taint_after_panic() {
+    let w = w();
+    w.tainted = true;
+    w.in_collect = false;
+    let r = reach_set();
+    for i in 0..w.n {
+        if w.created[i] && !r[i] {
+            w.rc_tainted[i] = true;
         }
     }
 }
